@@ -78,11 +78,13 @@ FaultAtHead(x) == x.srvq # <<>> /\ Head(x.srvq).type \in {"eof", "reset", "garba
 FaultKind(t) == CASE t = "eof" -> "UnexpectedSocketClose"
                   [] t = "reset" -> "IoErrorReadingSocket"
                   [] OTHER -> "MalformedFrame"
-CanFire(x) == ~x.gone /\ (FaultAtHead(x) \/ st.pendw)
+\* Normal termination is lazy too: the completion test runs at the end of a wake-up, after the
+\* remaining events of the batch, and nothing in the trace marks that moment.
+CanFire(x) == ~x.gone /\ (FaultAtHead(x) \/ st.pendw \/ (x.fatal = "" /\ Done(x)))
 Fire(x) == IF ~CanFire(x) THEN x
            ELSE IF FaultAtHead(x) THEN Fatal(x, FaultKind(Head(x.srvq).type))
-           ELSE Fatal(x, "IoErrorWritingSocket")
-
+           ELSE IF st.pendw THEN Fatal(x, "IoErrorWritingSocket")
+           ELSE Exit(x)
 
 -----------------------------------------------------------------------------
 \* what each operation sends and which reply it expects
@@ -135,6 +137,14 @@ NowaitOps == {"declare_nowait", "bind_nowait", "purge_nowait", "delete_nowait", 
 
 Fr(ch, m) == [type |-> "method", ch |-> ch, m |-> m]
 
+\* operations whose method carries a nowait bit, and the value it must have
+HasNowaitBit == {"declare", "declare_nowait", "bind", "bind_nowait", "purge", "purge_nowait", "delete",
+                 "delete_nowait", "select", "select_nowait", "exdeclare", "exdelete", "exbind", "exunbind",
+                 "consume", "cancel", "dropc"}
+NowaitVariants == {"declare_nowait", "bind_nowait", "purge_nowait", "delete_nowait", "select_nowait"}
+FrOp(ch, op) == IF op \in HasNowaitBit THEN Fr(ch, OpMethod(op)) @@ [nowait |-> op \in NowaitVariants]
+                ELSE Fr(ch, OpMethod(op))
+
 \* body frame payload sizes for a body of L bytes and negotiated frame_max F
 RECURSIVE ChunkSeq(_, _)
 ChunkSeq(L, P) == IF L = 0 THEN <<>> ELSE IF L <= P THEN <<L>> ELSE <<P>> \o ChunkSeq(L - P, P)
@@ -153,7 +163,7 @@ OpMsgs(e, ch) ==
       [] e.op = "listen_returns" -> <<[k |-> "setret", l |-> e.args.as]>>
       [] e.op \in {"closeconn", "dropconn"} ->
             <<[k |-> "close", fr |-> [type |-> "method", ch |-> 0, m |-> "connection.close", code |-> 200]]>>
-      [] OTHER -> <<SendMsg(Fr(ch, OpMethod(e.op)))>>
+      [] OTHER -> <<SendMsg(FrOp(ch, e.op))>>
 
 RECURSIVE EnqAll(_, _, _)
 EnqAll(x, h, msgs) == IF msgs = <<>> THEN x ELSE EnqAll(Enqueue(x, h, Head(msgs)), h, Tail(msgs))
@@ -249,7 +259,7 @@ TFrame ==
        ELSE LET e == Rec[l]
                 ok == w.srvq # <<>> /\ TypeNo(Head(w.srvq).type) = e.type /\ Head(w.srvq).ch = e.ch
                 f == Enrich(Head(w.srvq))
-                w2 == IF ok THEN Settle(Dispatch([w EXCEPT !.srvq = Tail(@)], f)) ELSE w
+                w2 == IF ok THEN Dispatch([w EXCEPT !.srvq = Tail(@)], f) ELSE w
             IN /\ Step(<< <<"C06:dispatch-order", ok>>,
                           <<"C05:no-dispatch-after-death", ~w.gone>> >>)
                /\ w' = w2
@@ -268,13 +278,22 @@ TC2s ==
     /\ IsEv("c2s")
     /\ IF st.hs
        THEN /\ Step(<<>>) /\ UNCHANGED <<w, ops, st, seen>>
+       ELSE IF Rec[l].type = "heartbeat"
+       THEN \* a client heartbeat (negotiated interval > 0): written from an empty, unsealed buffer only
+            /\ Step(<< <<"C08:nothing-after", ~st.finalwire>>,
+                       <<"C17:heartbeat-unsealed", ~w.sealed \/ w.out # <<>> >> >>)
+            /\ st' = IoStep(w, w)
+            /\ UNCHANGED <<w, ops, seen>>
        ELSE LET e == Rec[l]
                 ok == w.out # <<>> /\ SameFrame(Head(w.out), e)
             IN /\ Step(<< <<"C01:wire-order", ok>>,
+                          \* the nowait bit is set exactly in the nowait variants
+                          <<"C04:nowait-bit", (ok /\ Has(Head(w.out), "nowait") /\ Has(e, "nowait"))
+                                                 => e.nowait = Head(w.out).nowait>>,
                           <<"C08:nothing-after", ~st.finalwire>>,
                           <<"C01:env", e.type # "undecodable">> >>)
-               /\ w' = IF ok THEN Settle(Wrote(w)) ELSE w
-               /\ st' = [IoStep(w, IF ok THEN Settle(Wrote(w)) ELSE w)
+               /\ w' = IF ok THEN Wrote(w) ELSE w
+               /\ st' = [IoStep(w, IF ok THEN Wrote(w) ELSE w)
                          EXCEPT !.lastwire = IF e.type = "method" THEN e.m ELSE e.type,
                                    !.finalwire = @ \/ (e.type = "method" /\ e.ch = 0 /\
                                                        e.m \in {"connection.close", "connection.close-ok"})]
@@ -350,8 +369,11 @@ TRet ==
            h0 == IF e.th = "conn" THEN "conn" ELSE e.h
            \* an open call continues on the freshly allocated handle
            h == IF op = "open" /\ c.allocid >= 0 THEN c.as ELSE h0
+           \* if the I/O thread's (unrecorded) exit is what explains this result, the handle may already
+           \* have been dead when the call began
+           D0(x) == IF x = w THEN c.dead0 ELSE IF c.dead0 = "no" THEN "maybe" ELSE c.dead0
            Judge(x) ==
-             CASE op \in {"closeconn"} -> IF c.sends THEN CloseChecks(x, e, c.dead0) ELSE <<>>
+             CASE op \in {"closeconn"} -> IF c.sends THEN CloseChecks(x, e, D0(x)) ELSE <<>>
                [] op \in {"dropconn", "droph", "dropc"} -> <<>>            \* Drop returns nothing
                [] op = "open" ->
                     IF c.allocid >= 0 THEN SyncChecks(x, e, h, op, "no") \o
@@ -361,7 +383,7 @@ TRet ==
                [] op = "listen_blocked" ->
                     \* a nowait request on channel 0's own queue
                     IF ~x.hs["conn"].dead THEN << <<"C13:blocked-registered", e.ok>> >>
-                    ELSE IF c.dead0 = "yes" THEN << <<"C20:either-or", ~e.ok>> >>
+                    ELSE IF D0(x) = "yes" THEN << <<"C20:either-or", ~e.ok>> >>
                     ELSE <<>>
                [] op \in NowaitOps ->
                     IF ~Has(x.hs, h) \/ x.hs[h].unsure THEN <<>>
@@ -370,13 +392,13 @@ TRet ==
                              errok == ~e.ok /\ (IF rep.ok THEN e.err.kind = "FrameUnexpected"
                                                 ELSE SameErr(e.err, rep.e))
                              lab == ErrLabel(IF rep.ok THEN "FrameUnexpected" ELSE rep.e.kind)
-                         IN IF c.dead0 = "yes"
+                         IN IF D0(x) = "yes"
                             THEN << <<lab, errok>> >>
                             ELSE \* died while (or just before) the call was in progress: either outcome
                                  << <<lab, e.ok \/ errok>> >>
                [] op \in {"cancel"} /\ ~c.sends -> << <<"C11:cancel-idem", e.ok>> >>
                [] op \in {"close"} /\ ~c.sends -> <<>>
-               [] OTHER -> IF Has(x.hs, h) /\ ~x.hs[h].unsure THEN SyncChecks(x, e, h, op, c.dead0) ELSE <<>>
+               [] OTHER -> IF Has(x.hs, h) /\ ~x.hs[h].unsure THEN SyncChecks(x, e, h, op, D0(x)) ELSE <<>>
            x0 == w
            x1 == Fire(w)
            useFired == CanFire(w) /\ ~AllPass(Judge(x0))
